@@ -33,7 +33,12 @@ def to_list(f):
 
 
 def size(f) -> int:
-    return sum(1 + size(k) for k in f)
+    n, stack = 0, [f]
+    while stack:
+        lst = stack.pop()
+        n += len(lst)
+        stack.extend(lst)
+    return n
 
 
 def height(f) -> int:
@@ -41,7 +46,17 @@ def height(f) -> int:
 
 
 def code(f) -> str:
-    return "".join("(" + code(k) + ")" for k in f)
+    out, stack = [], [iter(f)]
+    while stack:
+        k = next(stack[-1], None)
+        if k is None:
+            stack.pop()
+            if stack:
+                out.append(")")
+        else:
+            out.append("(")
+            stack.append(iter(k))
+    return "".join(out)
 
 
 def decode(s: str):
